@@ -71,4 +71,41 @@ IsIntronOf(t, blk) == blk \in Introns(t)
 (* transcript orientation: <<start offset, end offset>>                            *)
 IntronOffsets(t, blk, iv) ==
   IF t.strand = 1 THEN <<blk[1] - iv[1], blk[2] - iv[2]>> ELSE <<iv[2] - blk[2], iv[1] - blk[1]>>
+
+(***************************************************************************)
+(* Fusion: left breakpoint lb = 0-based genomic position of the last donor  *)
+(* base kept, right breakpoint rb = 0-based genomic position of the first    *)
+(* acceptor base kept (all three tools report them 1-based).                 *)
+(***************************************************************************)
+DonorPos(g, lb) == G2Gene(g, lb) + 1        \* gene coordinate just past the last donor base: the record's position
+AcceptorPos(g, rb) == G2Gene(g, rb)         \* gene coordinate of the first acceptor base
+InSpan(t, x) == t.exons[1][1] <= x /\ x < t.exons[Len(t.exons)][2]
+
+(* x lies before-or-at y in the orientation of transcript t                       *)
+UpTo(t, x, y) == IF t.strand = 1 THEN x <= y ELSE x >= y
+Base(chrom, t, x) == IF t.strand = 1 THEN chrom[x + 1] ELSE Complement(chrom[x + 1])
+SpanPos(t) == (t.exons[1][1])..(t.exons[Len(t.exons)][2] - 1)
+
+(* genomic positions of the donor part: exonic bases up to lb, plus - when lb is   *)
+(* intronic - the intronic bases between the last exon before it and lb             *)
+DonorSet(t, lb) ==
+  LET ex == {x \in SpanPos(t) : Exonic(t, x) /\ UpTo(t, x, lb)}
+      retained == IF Exonic(t, lb) THEN {}
+                  ELSE {x \in SpanPos(t) : ~Exonic(t, x) /\ UpTo(t, x, lb) /\ \A e \in ex : UpTo(t, e, x)}
+  IN ex \cup retained
+AcceptorSet(t, rb) ==
+  LET ex == {x \in SpanPos(t) : Exonic(t, x) /\ UpTo(t, rb, x)}
+      retained == IF Exonic(t, rb) THEN {}
+                  ELSE {x \in SpanPos(t) : ~Exonic(t, x) /\ UpTo(t, rb, x) /\ \A e \in ex : UpTo(t, x, e)}
+  IN ex \cup retained
+
+RECURSIVE SeqOfPositions(_, _, _)
+SeqOfPositions(chrom, t, P) ==
+  IF P = {} THEN <<>>
+  ELSE LET x == CHOOSE a \in P : \A b \in P : UpTo(t, a, b)
+       IN <<Base(chrom, t, x)>> \o SeqOfPositions(chrom, t, P \ {x})
+
+DonorSeq(chrom, t, lb) == SeqOfPositions(chrom, t, DonorSet(t, lb))
+AcceptorSeq(chrom, t, rb) == SeqOfPositions(chrom, t, AcceptorSet(t, rb))
+FusedSeq(chrom, td, lb, ta, rb) == DonorSeq(chrom, td, lb) \o AcceptorSeq(chrom, ta, rb)
 =============================================================================
